@@ -4,9 +4,9 @@ package seqhash
 
 // C05: seqhash separates distinct molecules and follows the published v1 form.
 //
-// verif:bound C05 form clause: sequences over the 15 IUPAC codes in both cases (nucleic acids) / the protein alphabet, length 1..3 (quick) / 1..5 (thorough), all flag combinations; brute-force canonical form as a term
+// verif:bound C05 form clause: sequences over the 15 IUPAC codes in both cases (nucleic acids) / the protein alphabet, length 1..3 (quick) / 1..4 (thorough), all flag combinations; brute-force canonical form as a term
 // verif:bound C05 long-sequence clause: linear single-stranded DNA of 65536 (quick) / 65535..131073 (thorough) letters, two symbolic letters near the end: digest of the whole sequence; separation of two such molecules
-// verif:bound C05 separation clause: two inputs of equal length 1..3 (quick) / 1..5 (thorough) over ACGT, and 1..2 / 1..3 over the 15 IUPAC codes, same flags; different flags and different lengths give different tags / digests
+// verif:bound C05 separation clause: two inputs of equal length 1..3 (quick) / 1..4 (thorough) over ACGT, and 1..2 / 1..3 over the 15 IUPAC codes, same flags; different flags and different lengths give different tags / digests
 // verif:bound C05 rejection clause: type strings of 3..7 symbolic letters; one symbolic byte outside the alphabet at every position of a sequence of length 1..3 (quick) / 1..4 (thorough); double-stranded proteins
 // verif:assume C05 BLAKE3 is an uninterpreted function per input length and assumed collision-free: digests are equal iff the hashed strings are equal, digests of strings of different length differ. That the digest IS BLAKE3-256 is outside the claim (checked natively on pinned vectors only)
 // verif:bound C05 outside the claim: U and Z under DNA in the separation clause (reverse complement is not an involution there)
@@ -64,7 +64,7 @@ func c05Min(cands []string) string {
 }
 
 func Harness_C05_Form() {
-	n := 1 + vChoice(vTier(3, 5))
+	n := 1 + vChoice(vTier(3, 4))
 	ti := vChoice(3)
 	circ := vChoice(2) == 1
 	ds := vChoice(2) == 1
@@ -125,7 +125,7 @@ func c05Separation(n int, dom string) {
 }
 
 func Harness_C05_SeparationACGT() {
-	n := 1 + vChoice(vTier(3, 5))
+	n := 1 + vChoice(vTier(3, 4))
 	c05Separation(n, c05Acgt)
 }
 
